@@ -29,13 +29,14 @@ Definition add_range_rel (s m a b : N) : bool * N :=
   else if MASK_BITS - 1 <=? wsub (N.shiftr b s) (N.shiftr a s) then (false, MAX64)
   else (true, N.lor m (range_bits_rel (mask_for s a) (mask_for s b))).
 
-(* checked build: `-` and `+` trap (None) instead of wrapping; wrapping_sub still wraps *)
+(* checked build: `-` and `+` trap (None) instead of wrapping; wrapping_sub still wraps (the distance
+   (b >> s) - (a >> s) is a wrapping_sub in the source) *)
 Definition csub (x y : N) : option N := if y <=? x then Some (x - y) else None.
 Definition cadd (x y : N) : option N := if x + y <? M64 then Some (x + y) else None.
 
 Definition add_range_chk (s m a b : N) : option (bool * N) :=
   if m =? MAX64 then Some (false, m)
-  else match csub (N.shiftr b s) (N.shiftr a s) with
+  else match Some (wsub (N.shiftr b s) (N.shiftr a s)) with   (* wrapping_sub since fix 'add_range a > b' *)
        | None => None
        | Some d =>
          if MASK_BITS - 1 <=? d then Some (false, MAX64)
